@@ -6,6 +6,7 @@ import (
 	"context"
 	"errors"
 	"net"
+	"time"
 
 	"github.com/cloudwego/hertz/pkg/app"
 	"github.com/cloudwego/hertz/pkg/app/server/registry"
@@ -21,11 +22,13 @@ type zzTransport struct {
 	shutdowns   int
 	closes      int
 	hadDeadline bool
+	shutdownAt  time.Time // when the engine asked the transport to close its listener and drain
 }
 
 func (t *zzTransport) Close() error { t.closes++; return nil }
 func (t *zzTransport) Shutdown(ctx context.Context) error {
 	t.shutdowns++
+	t.shutdownAt = time.Now()
 	_, t.hadDeadline = ctx.Deadline()
 	return ctx.Err()
 }
@@ -112,13 +115,27 @@ func ZZ_C18_H3() {
 	}
 	e.status = statusRunning
 	nhooks := zz.Range("hooks", 1, 3)
+	slowHooks := zz.Choose("hooksTakeTwoSeconds", 2) == 1
 	ran := make([]int, nhooks)
 	for i := 0; i < nhooks; i++ {
 		i := i
-		e.OnShutdown = append(e.OnShutdown, func(ctx context.Context) { zz.Slow(); ran[i]++ })
+		e.OnShutdown = append(e.OnShutdown, func(ctx context.Context) {
+			if slowHooks {
+				zz.SlowFor(2000)
+			} else {
+				zz.Slow()
+			}
+			ran[i]++
+		})
 	}
+	t0 := time.Now()
 	err := e.Shutdown(context.Background())
 	zz.Cover("reached-assert", true)
+	if tr.shutdowns > 0 {
+		// "no new connection is accepted afterwards": the listener is closed when shutdown
+		// begins, not once the hooks - however slow - are through
+		zz.Assert("listener-closed-without-waiting-for-slow-hooks", tr.shutdownAt.Sub(t0) < time.Second)
+	}
 	zz.Cover("early-exit", err != nil)
 	all := true
 	for _, n := range ran {
